@@ -284,12 +284,50 @@ func (fv *FuncVC) declFieldHeap(ss Sort, field string, fs Sort) string {
 	fv.heapDecl(n, arraySort(SRef, fs))
 	return n
 }
+// declMapHeaps: a map is a reference into a domain heap and a value heap. len(m) is the
+// cardinality of the domain set (function card$K, axiomatised in cardFun).
 func (fv *FuncVC) declMapHeaps(k, v Sort) (string, string, string) {
-	d, vv, c := mapDomHeap(k, v), mapValHeap(k, v), mapCardHeap(k, v)
+	d, vv := mapDomHeap(k, v), mapValHeap(k, v)
 	fv.heapDecl(d, arraySort(SRef, arraySort(k, SBoolS)))
 	fv.heapDecl(vv, arraySort(SRef, arraySort(k, v)))
-	fv.heapDecl(c, arraySort(SRef, SInt))
-	return d, vv, c
+	return d, vv, fv.cardFun(k)
+}
+
+// cardFun declares card$K : (Array K Bool) -> Int with its update axioms.
+func (fv *FuncVC) cardFun(k Sort) string {
+	name := "card$" + sanitize(string(k))
+	th := fv.th
+	if th.declSeen[name] {
+		return name
+	}
+	set := arraySort(k, SBoolS)
+	th.declFun(name, []Sort{set}, SInt)
+	th.axioms = append(th.axioms,
+		fmt.Sprintf("(forall ((S %s)) (! (>= (%s S) 0) :pattern ((%s S))))", set, name, name),
+		fmt.Sprintf("(forall ((S %s) (x %s)) (! (= (%s (store S x true)) (+ (%s S) (ite (select S x) 0 1))) :pattern ((%s (store S x true)))))", set, k, name, name, name),
+		fmt.Sprintf("(forall ((S %s) (x %s)) (! (= (%s (store S x false)) (- (%s S) (ite (select S x) 1 0))) :pattern ((%s (store S x false)))))", set, k, name, name, name),
+		fmt.Sprintf("(= (%s %s) 0)", name, th.constArr(k, SBoolS, "false")),
+	)
+	if k == SInt {
+		// interval predicates and the two counting lemmas (finite-set arithmetic; Lean: lemmas/interval_card.lean)
+		th.declFun("within$Int", []Sort{set, SInt}, SBoolS)
+		th.declFun("full$Int", []Sort{set, SInt}, SBoolS)
+		th.declFun("wwit$Int", []Sort{set, SInt}, SInt)
+		th.declFun("fwit$Int", []Sort{set, SInt}, SInt)
+		th.declFun("tr$Int", []Sort{SInt}, SBoolS)
+		th.axioms = append(th.axioms, "(forall ((x Int)) (! (tr$Int x) :pattern ((tr$Int x))))")
+		th.axioms = append(th.axioms,
+			fmt.Sprintf("(forall ((S %s) (m Int) (x Int)) (! (=> (and (within$Int S m) (select S x)) (and (<= 0 x) (<= x m))) :pattern ((within$Int S m) (select S x))))", set),
+			fmt.Sprintf("(forall ((S %s) (m Int)) (! (=> (=> (select S (wwit$Int S m)) (and (<= 0 (wwit$Int S m)) (<= (wwit$Int S m) m))) (within$Int S m)) :pattern ((within$Int S m))))", set),
+			fmt.Sprintf("(forall ((S %s) (m Int) (x Int)) (! (=> (and (full$Int S m) (<= 0 x) (<= x m)) (select S x)) :pattern ((full$Int S m) (select S x)) :pattern ((full$Int S m) (tr$Int x))))", set),
+			fmt.Sprintf("(forall ((S %s) (m Int)) (! (=> (and (tr$Int (fwit$Int S m)) (=> (and (<= 0 (fwit$Int S m)) (<= (fwit$Int S m) m)) (select S (fwit$Int S m)))) (full$Int S m)) :pattern ((full$Int S m))))", set),
+			// pigeonhole: a subset of {0..m} with m+1 elements is {0..m}
+			fmt.Sprintf("(forall ((S %s) (m Int)) (! (=> (and (within$Int S m) (= (%s S) (+ m 1))) (full$Int S m)) :pattern ((within$Int S m))))", set, name),
+			// the interval {0..m} has m+1 elements
+			fmt.Sprintf("(forall ((S %s) (m Int)) (! (=> (and (>= m (- 1)) (within$Int S m) (full$Int S m)) (= (%s S) (+ m 1))) :pattern ((within$Int S m) (%s S))))", set, name, name),
+		)
+	}
+	return name
 }
 
 // freshRef allocates a new reference.
